@@ -7,6 +7,7 @@ import DhtVerif.Lemmas.C03
 import DhtVerif.Lemmas.C03Inv
 import DhtVerif.Lemmas.C03Wake
 import DhtVerif.Lemmas.C03Rep
+import DhtVerif.Props.SourceTrees
 namespace Dht
 
 def idxAt (l : List String) (x : String) : Nat := l.findIdx (· == x)
@@ -328,5 +329,11 @@ theorem C03.stale_offer_possible :
   ⟨{ target := List.replicate 20 0 },
    [.runEval, .addNodes [⟨some (List.replicate 20 1), ⟨1, [10, 0, 0, 1], 1000⟩⟩]],
    by decide +kernel⟩
+
+/-- T1 by translation: `Operation.haveQuery` in traversal/operation.go is the model's `Trav.haveQuery`. -/
+theorem C03.haveQuery_is_the_source (c : TravCfg) (s : Trav) :
+    Gen.treeHaveQueryLets = hqLetsExpected ∧
+    DExp.evalWith (hqCond c s) (hqRet c s) Gen.treeHaveQuery = some (s.haveQuery c) :=
+  SourceTrees.haveQuery c s
 
 end Dht
